@@ -52,6 +52,15 @@ def prior_dict(ops):
 PRE = (('set', 'k2', 'pre2'), ('get', 'k1'))      # fault-free operations on the same handle before the crashing one
 
 
+def state_before(prior, pre):
+    """model state when the crashing operation starts: the prior store, then the fault-free operations `pre`"""
+    P = prior_dict(prior)
+    for o in pre:
+        P = model_after(P, o)
+        assert P is not None, 'popitem is not usable as a fault-free first operation (its effect is not determined)'
+    return P
+
+
 def operations(tier):
     ops = [
         ('set-new', ('set', 'k3', 'new3')),
@@ -106,6 +115,20 @@ def model_after(P, op):
     return Q
 
 
+def written_keys(op, P):
+    """keys whose entry the operation (re)writes, given the state it starts from -- also when the value stays the same"""
+    k = op[0]
+    if k == 'set':
+        return {op[1]}
+    if k in ('update', 'dump', 'sync', 'syncclear'):
+        return set(dict(op[1]))
+    if k == 'dumpk':
+        return {op[2]}
+    if k == 'setdefault':
+        return set() if op[1] in P else {op[1]}
+    return set()
+
+
 def applicable(P, op):
     k = op[0]
     if k in ('del', 'pop') and op[1] not in P:
@@ -130,7 +153,7 @@ def stages(P, op, Q):
     return [P, Q]
 
 
-def check_recovery(rec, P, Q, ctx, mid=()):
+def check_recovery(rec, P, Q, ctx, mid=(), written=()):
     """oracle: list of (rule, extra-sig, detail); mid = further legitimate intermediate states"""
     out = []
     if rec is None or not isinstance(rec, dict):
@@ -152,9 +175,9 @@ def check_recovery(rec, P, Q, ctx, mid=()):
     for k in set(P) | set(Q):
         got = R.get(k, ABSENT)
         if got != P.get(k, ABSENT) and got != Q.get(k, ABSENT) and not any(got == M.get(k, ABSENT) for M in mid):
-            touched = P.get(k, ABSENT) != Q.get(k, ABSENT)
+            touched = P.get(k, ABSENT) != Q.get(k, ABSENT) or k in written
             out.append(('touched-key-neither-old-nor-new' if touched else 'untouched-key-changed',
-                        {'lost': got == ABSENT},
+                        {'lost': got == ABSENT, 'overwrites_existing': k in written and k in P},
                         'key %r recovered as %s; previous value %s, new value %s' % (
                             k, _short(got), _short(P.get(k, ABSENT)), _short(Q.get(k, ABSENT)))))
     # all reads agree with each other
@@ -177,10 +200,10 @@ def _task(task):
     pre = task[5] if len(task) > 5 else ()
     res = {'counts': collections.Counter(), 'violations': [], 'samples': [], 'nontrivial': 0, 'outcomes': set(),
            'caps': [], 'config': task[1:4]}
-    name = '%s prior=%s%s op=%s' % (backend, prior_name, '+same-handle-wrote-before' if pre else '', opname)
+    name = '%s prior=%s%s op=%s' % (backend, prior_name, ('+same-handle-first-did:%s' % (task[6],) if len(task) > 6 else '+same-handle-wrote-before') if pre else '', opname)
     srv = fsgate.server()
     prior = PRIORS[prior_name]
-    P = prior_dict(list(prior) + list(pre))
+    P = state_before(prior, pre)
     base = {'backend': backend, 'prior': prior, 'op': op, 'pre_ops': list(pre)}
 
     def run(mode, kill_at=-1, kill_short=0):
@@ -195,6 +218,8 @@ def _task(task):
     res['counts']['evaluations'] += 1
     res['counts']['histories'] += 1
     sigbase = {'backend': backend, 'op': opname, 'prior': prior_name}
+    if len(task) > 6:
+        sigbase['first_op'] = task[6]
     rep = {'backend': backend, 'prior': prior_name, 'opname': opname, 'op': list(op), 'pre_ops': [list(o) for o in pre]}
     if log['result'] is None or log['result'][0] not in ('ret',):
         res['violations'].append(v(dict(sigbase, rule='operation-fails-without-crash'),
@@ -222,7 +247,8 @@ def _task(task):
             res['counts']['crash_points'] += 1
             if not r['killed']:
                 raise RuntimeError('nondeterminism not owned: %s was not killed at event %d (%s); events now %r' % (name, i, kind, r['events'][-3:]))
-            found = check_recovery(r['recovery'], P, Q, name, mid=stages(P, op, Q)[1:-1])
+            found = check_recovery(r['recovery'], P, Q, name, mid=stages(P, op, Q)[1:-1],
+                                   written=written_keys(op, {} if op[0] == 'syncclear' else P))
             res['outcomes'].add((kind, tuple(sorted(f[0] for f in found))))
             res['nontrivial'] += 1
             for rule, extra, detail in found:
@@ -266,6 +292,21 @@ def tasks_for(tier):
             if tier == 'quick' and opname not in ('set-new', 'overwrite', 'update', 'del', 'clear', 'dump', 'popkeys', 'sync-clear'):
                 continue
             tasks.append((tier, b, 'one', opname, op, PRE))
+        if tier != 'thorough':
+            continue
+        # thorough: every ordered pair (first operation without faults, second operation crashed at every point) on one
+        # handle, from two prior stores -- the second operation starts from whatever the first one left behind in the
+        # handle and on disk (temporary names, cached state, open connections)
+        for pn in ('one', 'churned'):
+            for name1, op1 in operations(tier):
+                P0 = prior_dict(PRIORS[pn])
+                if op1[0] in ('open', 'popitem') or 'big' in name1 or not applicable(P0, op1):
+                    continue
+                P = model_after(P0, op1)
+                for opname, op in operations(tier):
+                    if op[0] == 'open' or 'big' in opname or not applicable(P, op):
+                        continue
+                    tasks.append((tier, b, pn, opname, op, (op1,), name1))
     return tasks
 
 
@@ -289,7 +330,7 @@ def replay(doc):
     backend, pn, op = doc['backend'], doc['prior'], tuple(tuple(tuple(y) if isinstance(y, list) else y for y in x) if isinstance(x, list) else x for x in doc['op'])
     srv = fsgate.server()
     pre = [tuple(o) for o in doc.get('pre_ops', [])]
-    P = prior_dict(list(PRIORS[pn]) + pre)
+    P = state_before(PRIORS[pn], pre)
     spec = {'backend': backend, 'prior': PRIORS[pn], 'op': op, 'pre_ops': pre, 'root': pool.fresh_dir('k'),
             'mode': 'log' if doc.get('kill_at') is None else 'kill', 'kill_at': doc.get('kill_at') or -1, 'kill_short': doc.get('kill_short', 0)}
     r = srv.request({'cmd': 'crash', 'spec': spec})
@@ -297,6 +338,7 @@ def replay(doc):
     if Q is None:
         Q = P
     print('killed:', r['killed'], 'recovery:', r['recovery'])
-    found = check_recovery(r['recovery'], P if r['killed'] else Q, Q, '', mid=stages(P, op, Q)[1:-1] if r['killed'] else ())
+    found = check_recovery(r['recovery'], P if r['killed'] else Q, Q, '', mid=stages(P, op, Q)[1:-1] if r['killed'] else (),
+                           written=written_keys(op, {} if op[0] == 'syncclear' else P))
     srv.close()
     return [({'rule': f[0]}, f[2]) for f in found]
